@@ -161,7 +161,7 @@ def _(c):
     c.self_type("Pyramid", **PYRAMID_FIELDS)
     c.args(callback="callback", cli_progress="bool", parallel="int")
     c.shards(14)
-    c.requires("parallel >= 2 and self.depth >= 0", name="parallel_mode")
+    c.requires("parallel >= 1 and self.depth >= 0", name="parallel_mode")
     c.requires("self._apex.n >= 0 and self._apex.x >= 0 and self._apex.y >= 0 and self._apex.n <= self.depth", name="valid_apex")
     c.local(readiness="emptydict => symmap", ready_queue="opaque:queue => walk_ready_queue",
             done_queue="opaque:queue => walk_done_queue", done_event="opaque:event => event",
